@@ -25,7 +25,9 @@
      S7 map_remote: the same on the request URL, rule after rule in option order.
      S8 map_local: rules are tried in option order on the (already re-mapped) URL; the first rule that matches and
         finds a file answers 200 with its content: the file itself, or for a directory  dir/suffix  then
-        dir/suffix/index.html (suffix = URL right of the match without query string; dir/index.html if empty);
+        dir/suffix/index.html (suffix = URL right of the match without query string; dir/index.html if empty;
+        if the regex has a capturing group: the group, query string included), then the same with special
+        characters mapped to _;
         when rules matched but found no file the answer is an empty 404; otherwise there is no response; nothing
         outside the directory is ever served; the current content of a file is served (no caching).
      S9 no handler raises (the addon manager would log an addon error).
@@ -36,9 +38,10 @@
 
    Abstract domain (the harness concretises; see props/X03.py): header = <<name id, value id>>; a body / file content
    is a sequence of tokens, a body subject a sequence of token alternatives; a URL is host id + path segments
-   (8 = index.html, 9 = ..) + query flag.  Events:
+   (8 = index.html, 9 = .., 6 = we%21rd whose file name is 16 = we_rd, 40 + t = the name of t followed by _k=v) +
+   query flag.  Events:
      [k |-> "world", rules |-> <<rule>>, fs |-> <<[p |-> segs, f |-> file id]>>, files |-> <<[present, c]>>]
-        rule = [ad, bad, f |-> [t, a, neg], s, r, file, host, rhost, lp]
+        rule = [ad, bad, f |-> [t, a, neg], s, r, file, host, rhost, lp, grp]
      [k |-> "set", opt |-> "mh"|"mb"|"mr"|"ml", rules |-> <<ids>>, err |-> "" or exception class]
      [k |-> "file", f, present, c]                      the environment deletes / (re)writes a file
      [k |-> "flow", live, err, meth, host, path, query, qh, qb, qs]        a new flow (qs: body streamed)
@@ -152,33 +155,41 @@ MRSnap(w, fl, rs) == MRAll(w, fl, Matching(w, fl, rs))
 \* ---- map_local -----------------------------------------------------------------------------------
 \* position of the first match of the url regex (segments before it), -1 = no match
 MinOr(K, d) == IF K = {} THEN d ELSE CHOOSE k \in K : \A j \in K : k <= j
+Grp(r) == Get(r, "grp", FALSE)          \* the url regex ends in a capturing group for the rest of the URL:  subject/(.*)
 MLPos(r, fl) ==
-  IF r.host # 0 THEN (IF fl.host = r.host /\ IsPre(r.s, fl.path) THEN 0 ELSE -1)
-  ELSE MinOr({k \in 0..(Len(fl.path) - Len(r.s)) : SubSeq(fl.path, k + 1, k + Len(r.s)) = r.s}, -1)
-MLSuffix(r, fl) == SubSeq(fl.path, MLPos(r, fl) + Len(r.s) + 1, Len(fl.path))
+  IF r.host # 0 THEN (IF fl.host = r.host /\ IsPre(r.s, fl.path) /\ (Grp(r) => Len(fl.path) > Len(r.s)) THEN 0 ELSE -1)
+  ELSE MinOr({k \in 0..(Len(fl.path) - Len(r.s) - (IF Grp(r) THEN 1 ELSE 0)) : SubSeq(fl.path, k + 1, k + Len(r.s)) = r.s}, -1)
+\* segments right of the match; with a capturing group the query string stays on the last one (token + 20)
+WithQuery(sfx) == IF sfx = <<>> THEN sfx ELSE [sfx EXCEPT ![Len(sfx)] = @ + 20]
+MLRest(r, fl) == SubSeq(fl.path, MLPos(r, fl) + Len(r.s) + 1, Len(fl.path))
+MLSuffix(r, fl) == IF Grp(r) /\ fl.query THEN WithQuery(MLRest(r, fl)) ELSE MLRest(r, fl)
 PathFile(w, p) == IF \E i \in 1..Len(w.fs) : w.fs[i].p = p
                   THEN w.fs[CHOOSE i \in 1..Len(w.fs) : w.fs[i].p = p].f ELSE 0
+\* special characters are mapped to _ :  6 (we%21rd) -> 16 (we_rd),  20 + t (name?k=v) -> 40 + t (name_k=v)
+EscTok(t) == IF t = 6 THEN 16 ELSE IF t > 20 /\ t < 30 THEN t + 20 ELSE t
+Esc(sfx) == [i \in 1..Len(sfx) |-> EscTok(sfx[i])]
 \* candidate files in order of preference (0 = a path that does not exist); <<>> = no candidate at all
 DirCands(w, sfx) == IF sfx = <<>> THEN <<PathFile(w, <<8>>)>>
                     ELSE IF 9 \in ToSet(sfx) THEN <<>>
-                    ELSE <<PathFile(w, sfx), PathFile(w, sfx \o <<8>>)>>
+                    ELSE IF Esc(sfx) = sfx THEN <<PathFile(w, sfx), PathFile(w, sfx \o <<8>>)>>
+                    ELSE <<PathFile(w, sfx), PathFile(w, sfx \o <<8>>), PathFile(w, Esc(sfx)), PathFile(w, Esc(sfx) \o <<8>>)>>
 MLCands(w, files, r, fl) ==
   IF r.lp = "file" /\ files[r.file].present THEN <<r.file>>
-  ELSE IF r.lp = "file" THEN <<0>>
+  ELSE IF r.lp = "file" THEN (IF 9 \in ToSet(MLSuffix(r, fl)) THEN <<>> ELSE <<0>>)   \* a deleted target is treated like a directory
   ELSE DirCands(w, MLSuffix(r, fl))
 MLHit(w, fl, i) == EvalF(w.rules[i].f, fl) /\ MLPos(w.rules[i], fl) >= 0
 Existing(files, cs) == {j \in 1..Len(cs) : cs[j] # 0 /\ files[cs[j]].present}
 RECURSIVE MLRun(_, _, _, _, _, _)
 MLTry(w, files, fl, rs, any, tried, cs, j) ==
-  IF j # 0 THEN [code |-> 200, f |-> cs[j], via |-> j, later |-> tried]
+  IF j # 0 THEN [code |-> 200, f |-> cs[j], via |-> j, later |-> tried, by |-> Head(rs)]
   ELSE MLRun(w, files, fl, Tail(rs), any \/ cs # <<>>, TRUE)
-MLRun(w, files, fl, rs, any, tried) ==     \* [code, f, via: index of the candidate, later: an earlier rule matched]
-  IF rs = <<>> THEN [code |-> IF any THEN 404 ELSE 0, f |-> 0, via |-> 0, later |-> FALSE]
+MLRun(w, files, fl, rs, any, tried) ==     \* [code, f, via: index of the candidate, later: an earlier rule matched, by: rule]
+  IF rs = <<>> THEN [code |-> IF any THEN 404 ELSE 0, f |-> 0, via |-> 0, later |-> FALSE, by |-> 0]
   ELSE IF MLHit(w, fl, Head(rs))
        THEN MLTry(w, files, fl, rs, any, tried, MLCands(w, files, w.rules[Head(rs)], fl),
                   MinOr(Existing(files, MLCands(w, files, w.rules[Head(rs)], fl)), 0))
        ELSE MLRun(w, files, fl, Tail(rs), any, tried)
-MLTrav(w, fl, rs) == \E i \in ToSet(rs) : MLHit(w, fl, i) /\ w.rules[i].lp = "dir" /\ 9 \in ToSet(MLSuffix(w.rules[i], fl))
+MLTrav(w, fl, rs) == \E i \in ToSet(rs) : MLHit(w, fl, i) /\ 9 \in ToSet(MLSuffix(w.rules[i], fl))
 InsideFiles(w) == {w.fs[i].f : i \in 1..Len(w.fs)} \cup {w.rules[i].file : i \in {j \in 1..Len(w.rules) : w.rules[j].ad = "ml"}}
 \* rules that match and have an existing candidate
 MLServing(w, files, fl, rs) == {i \in ToSet(rs) : MLHit(w, fl, i) /\ Existing(files, MLCands(w, files, w.rules[i], fl)) # {}}
@@ -259,9 +270,12 @@ LJudge(m, fl, p) ==
 LWit2(m, fl, e) ==
   (IF e.code = 200 THEN {"ml_served"} ELSE IF e.code = 404 THEN {"ml_404"} ELSE {"ml_nomatch"})
   \cup (IF e.code = 200 /\ \E i \in ToSet(m.act.ml) : m.w.rules[i].lp = "file" /\ m.w.rules[i].file = e.f THEN {"ml_file_rule"} ELSE {})
-  \cup (IF e.code = 200 /\ e.via = 2 THEN {"ml_index_fallback"} ELSE {})
+  \cup (IF e.code = 200 /\ e.via \in {2, 4} THEN {"ml_index_fallback"} ELSE {})
+  \cup (IF e.code = 200 /\ e.via >= 3 THEN {"ml_special_chars"} ELSE {})
+  \cup (IF e.code = 200 /\ Grp(m.w.rules[e.by]) /\ m.w.rules[e.by].lp = "dir"
+        THEN {IF fl.query THEN "ml_group_query" ELSE "ml_group"} ELSE {})
   \cup (IF e.code = 200 /\ e.later THEN {"ml_later_rule"} ELSE {})
-  \cup (IF e.code = 200 /\ fl.query THEN {"ml_query_ignored"} ELSE {})
+  \cup (IF e.code = 200 /\ fl.query /\ ~Grp(m.w.rules[e.by]) /\ m.w.rules[e.by].lp = "dir" THEN {"ml_query_ignored"} ELSE {})
   \cup (IF e.code = 200 /\ Cardinality(MLServing(m.w, m.files, fl, m.act.ml)) > 1 THEN {"ml_first_of_many"} ELSE {})
 LWit(m, fl) ==
   IF m.act.ml = <<>> THEN {}
